@@ -8,6 +8,7 @@ sys.path.insert(0, ROOT)
 def main():
     props = [json.loads(l) for l in open(os.path.join(ROOT, 'properties.jsonl'))]
     na = json.load(open(os.path.join(ROOT, 'tools', 'not_applicable.json')))
+    na.update(json.load(open(os.path.join(ROOT, 'tools', 'pending.json'))))
     hooks = json.load(open(os.path.join(ROOT, 'tools', 'hooks.json')))
     checks, notapp, engines = [], [], {}
     for p in props:
@@ -24,7 +25,7 @@ def main():
                 'replay_cmd_template': 'bin/check %s quick --replay {path}' % pid,
                 'engine': 'tla-conformance',
                 'level_claimed': {'category': m['category'], 'text': m['text'], 'design_ref': m['design_ref']},
-                'level_note': m['note'],
+                'level_note': m.get('note') or ('Trusts TLC and the harness projection; assumptions: ' + '; '.join(getattr(mod, 'ASSUMPTIONS', [])[:3]))[:600],
                 'technique': m['technique'],
             }
             checks.append(c)
